@@ -287,6 +287,11 @@ def failure_case(asm, acc, case):
             if os.path.exists(hexp):
                 os.unlink(hexp)
             os.makedirs(hexp)          # the Intel HEX file cannot be written
+        if fault == 'hex_staging_blocked':
+            # only the hex file cannot be produced: something (a directory left behind by an interrupted run) sits where the tool
+            # stages it - whatever the staging name is, the usual suspects are all taken
+            for suffix in ('.part', '.tmp', '.new', '~'):
+                os.makedirs(hexp + suffix, exist_ok=True)
         tracked = [p for p in (outp, labp, hexp) if not os.path.isdir(p)]
         before = {p: stat_of(p) for p in tracked}
         args = [src, '-o', o_arg or outp, '-l', l_arg or labp] + (['-c'] if case['compress'] else [])
@@ -306,6 +311,19 @@ def failure_case(asm, acc, case):
             acc['ctr']['injection_not_reached'] += 1
             return
         desc = 'failing CLI run (%s%s, compress=%s, older output files %s)' % (fault, '/' + case['kind2'] if launcher else '', case['compress'], 'present' if present else 'absent')
+        if r.returncode == 0 and fault == 'hex_staging_blocked':
+            # a tool that stages its hex file somewhere else is not hindered at all: then this is a successful run and owes a hex file
+            ok = False
+            if os.path.isfile(hexp):
+                try:
+                    ok = len(ihex.parse(open(hexp).read())) > 0
+                except (ValueError, OSError):
+                    ok = False
+            if ok:
+                acc['ctr']['fault_did_not_bite'] += 1
+            else:
+                core.add_viol(acc, '%s exits with status 0 but left no readable Intel HEX file' % desc, case, {'stderr': r.stderr[-300:]})
+            return
         if r.returncode == 0:
             if launcher:
                 # the rebound function was never called by this tree's assemble(): not a failure at all (e.g. a pass was removed)
@@ -350,7 +368,7 @@ def plan(tier, seed):
                       'hex': hexes[i % len(hexes)], 'defs': i % 7 == 0, 'big': i % 4 == 1})
     reps = 1 if tier == 'quick' else 24
     for rep in range(reps):
-        for fault in list(NATURAL) + ['bad_hex_offset', 'hex_past_4g', 'missing_input', 'bad_include_dir', 'out_missing_dir', 'out_is_dir', 'labels_missing_dir', 'hex_is_dir']:
+        for fault in list(NATURAL) + ['bad_hex_offset', 'hex_past_4g', 'hex_staging_blocked', 'missing_input', 'bad_include_dir', 'out_missing_dir', 'out_is_dir', 'labels_missing_dir', 'hex_is_dir']:
             for compress in (False, True):
                 for present in (True, False):
                     cases.append({'what': 'failure', 'fault': fault, 'compress': compress, 'present': present, 'kind2': '', 'rep': rep})
